@@ -15,7 +15,7 @@ thread_local! {
 
 fn decode(data: &[u8]) -> Option<(Prog, Vec<(u64, u8)>)> {
     let mut u = Unstructured::new(data);
-    let hmode = ALL_HMODES[u.int_in_range(0..=6usize).ok()?];
+    let hmode = ALL_HMODES[u.int_in_range(0..=8usize).ok()?];
     let capacity = *u.choose(&[0u32, 1, 20, 42, 43, 85]).ok()?;
     let batch = *u.choose(&[1u32, 2, 8, 120]).ok()?;
     let gmode = *u.choose(&[GuardMode::PerOp, GuardMode::PerThread, GuardMode::Pin]).ok()?;
